@@ -271,6 +271,12 @@ func (x *Exec) applyContract1(st *State, pk *Pkg, fn *ssa.Function, fc *FuncCont
 		}
 		x.assume(o.Implies(st.Guard, t))
 	}
+	if fc.Pure && len(vals) == 1 {
+		// a pure function: its result is an (uninterpreted) function of its arguments' contents
+		if rt, ok := vals[0].(*Term); ok {
+			x.assume(o.Implies(st.Guard, o.Eq(rt, x.pureApp(fn, fc, args, st, rt.Sort))))
+		}
+	}
 	switch len(vals) {
 	case 0:
 		return nil
@@ -880,6 +886,20 @@ func (x *Exec) specMethodCall(e *SpecEnv, recv SVal, name string, args []Expr) S
 	if fn == nil {
 		panic(specErr{fmt.Sprintf("method %s not found", key)})
 	}
+	if fc.Pure {
+		vals := []Val{recv.V}
+		for i, a := range args {
+			av := e.eval(a)
+			if av.C != nil {
+				ity, _ := intTyOf(fn.Params[i+1].Type())
+				vals = append(vals, x.o.Const(ity, av.C))
+			} else {
+				vals = append(vals, av.V)
+			}
+		}
+		rt := fn.Signature.Results().At(0).Type()
+		return SVal{V: x.pureApp(fn, fc, vals, e.st(), x.o.ElemSort(rt)), T: rt}
+	}
 	// result defined by `ensures result == E`
 	env := &SpecEnv{x: x, pk: pk, vars: map[string]SVal{}, pre: e.st(), post: e.st(), tparams: e.tparams, allocPre: e.allocPre}
 	env.vars[fn.Params[0].Name()] = recv
@@ -943,4 +963,208 @@ func (x *Exec) newRegion(st *State) *Term {
 		x.fail("too many allocations in one function")
 	}
 	return x.o.Add(st.Alloc, x.o.Int(int64(x.regionSeq)))
+}
+
+// pureApp: the uninterpreted application F(args) for a function declared `pure`. Struct fields named in the
+// contract option `ignores` are left out (the function provably never reads them). Applications of the same
+// function are tied by extensionality axioms: equal scalars and equal sequence contents give equal results.
+type pureAppRec struct {
+	scal []*Term
+	seqs []StrVal
+	res  *Term
+}
+
+func (x *Exec) pureApp(fn *ssa.Function, fc *FuncContract, args []Val, st *State, res *Sort) *Term {
+	o := x.o
+	ignore := map[string]bool{}
+	if fc != nil {
+		for _, f := range strings.Split(fc.Opts["ignores"], ",") {
+			if f != "" {
+				ignore[f] = true
+			}
+		}
+	}
+	var ts []*Term
+	rec := pureAppRec{}
+	var flat func(v Val)
+	flat = func(v Val) {
+		switch t := v.(type) {
+		case *Term:
+			ts = append(ts, t)
+			rec.scal = append(rec.scal, t)
+		case StrVal:
+			ts = append(ts, t.Arr, t.Off, t.Len)
+			rec.seqs = append(rec.seqs, t)
+		case SliceVal:
+			sv := x.seqView(st, t)
+			ts = append(ts, sv.Arr, sv.Off, sv.Len)
+			rec.seqs = append(rec.seqs, sv)
+		case StructVal:
+			stt, _ := t.T.Underlying().(*types.Struct)
+			for i, f := range t.F {
+				if stt != nil && ignore[stt.Field(i).Name()] {
+					continue
+				}
+				flat(f)
+			}
+		default:
+			x.fail("pure function %s: argument of unsupported shape %T", InstName(fn), v)
+		}
+	}
+	for _, a := range args {
+		flat(a)
+	}
+	name := "pure." + InstName(fn)
+	r := o.UF(name, res, ts...)
+	rec.res = r
+	if x.pureApps == nil {
+		x.pureApps = map[string][]pureAppRec{}
+	}
+	dup := false
+	for _, p := range x.pureApps[name] {
+		if p.res == r {
+			dup = true
+			continue
+		}
+		var eqs []*Term
+		for i := range p.scal {
+			eqs = append(eqs, o.Eq(p.scal[i], rec.scal[i]))
+		}
+		for i := range p.seqs {
+			eqs = append(eqs, x.seqEq(p.seqs[i], rec.seqs[i]))
+		}
+		x.assume(o.Implies(o.And(eqs...), o.Eq(p.res, r)))
+	}
+	if !dup {
+		x.pureApps[name] = append(x.pureApps[name], rec)
+	}
+	return r
+}
+
+// checkPure: syntactic purity: no stores to pre-existing memory, no goroutines/defers, callees pure.
+func (w *World) checkPure(fn *ssa.Function, ignores string) string {
+	ign := map[string]bool{}
+	for _, f := range strings.Split(ignores, ",") {
+		if f != "" {
+			ign[f] = true
+		}
+	}
+	structArg := func(v ssa.Value) bool {
+		_, ok := v.Type().Underlying().(*types.Struct)
+		return ok
+	}
+	for _, b := range fn.Blocks {
+		for _, ins := range b.Instrs {
+			if len(ign) > 0 {
+				// an ignored field must never be selected, and struct values must not travel whole
+				switch t := ins.(type) {
+				case *ssa.Field:
+					if st, ok := t.X.Type().Underlying().(*types.Struct); ok && ign[st.Field(t.Field).Name()] {
+						return "reads the field " + st.Field(t.Field).Name() + " it is declared to ignore"
+					}
+				case *ssa.FieldAddr:
+					if pt, ok := t.X.Type().Underlying().(*types.Pointer); ok {
+						if st, ok := pt.Elem().Underlying().(*types.Struct); ok && ign[st.Field(t.Field).Name()] {
+							return "reads the field " + st.Field(t.Field).Name() + " it is declared to ignore"
+						}
+					}
+				case ssa.CallInstruction:
+					for _, a := range t.Common().Args {
+						if structArg(a) {
+							return "passes a whole struct to a callee while declaring ignored fields"
+						}
+					}
+				case *ssa.Store:
+					if structArg(t.Val) {
+						// spilling a struct parameter into a local that is only ever accessed field by field is fine
+						al, isAlloc := t.Addr.(*ssa.Alloc)
+						okSpill := isAlloc
+						if isAlloc {
+							for _, u := range *al.Referrers() {
+								switch ui := u.(type) {
+								case *ssa.FieldAddr:
+								case *ssa.Store:
+									if ui != t {
+										okSpill = false
+									}
+								default:
+									okSpill = false
+								}
+							}
+						}
+						if !okSpill {
+							return "stores a whole struct while declaring ignored fields"
+						}
+					}
+				case *ssa.MakeInterface:
+					if structArg(t.X) {
+						return "boxes a whole struct while declaring ignored fields"
+					}
+				case *ssa.BinOp:
+					if structArg(t.X) {
+						return "compares whole structs while declaring ignored fields"
+					}
+				}
+			}
+			switch t := ins.(type) {
+			case *ssa.Store:
+				if _, isAlloc := t.Addr.(*ssa.Alloc); !isAlloc {
+					if fa, ok := t.Addr.(*ssa.FieldAddr); ok {
+						if _, ok2 := fa.X.(*ssa.Alloc); ok2 {
+							continue
+						}
+					}
+					return "stores through a pointer that is not a local allocation"
+				}
+			case *ssa.Go, *ssa.Defer, *ssa.MapUpdate, *ssa.Send:
+				return fmt.Sprintf("uses %T", ins)
+			case ssa.CallInstruction:
+				c := t.Common()
+				if c.IsInvoke() {
+					return "calls an interface method"
+				}
+				if _, ok := c.Value.(*ssa.Builtin); ok {
+					continue
+				}
+				callee := c.StaticCallee()
+				if callee == nil {
+					// a call through a `config X = Default` function variable counts as a call of Default
+					if ld, ok := c.Value.(*ssa.UnOp); ok {
+						if g, ok := ld.X.(*ssa.Global); ok {
+							if gpk := w.ByPath[g.Pkg.Pkg.Path()]; gpk != nil {
+								if _, isCfg := gpk.Contracts.Configs[g.Name()]; isCfg {
+									if gi := gpk.Inits[g.Name()]; gi != nil && gi.Kind == "func" {
+										callee = gpk.LookupFunc(gi.Func)
+									}
+								}
+							}
+						}
+					}
+				}
+				if callee == nil {
+					return "calls a function value"
+				}
+				if pp := fnPkg(callee); pp != nil {
+					if pk, ok := w.ByPath[pp.Pkg.Path()]; ok {
+						cfc := pk.Contracts.Funcs[ContractKey(callee)]
+						if cfc == nil || !(cfc.Pure || cfc.Inline) {
+							return "calls " + InstName(callee) + ", which is not declared pure"
+						}
+						continue
+					}
+				}
+				name := callee.String()
+				okPrefix := false
+				for _, p := range []string{"strings.", "(*regexp.Regexp).Match", "strconv.", "math/bits.", "unicode/utf8.", "(*regexp.Regexp).Find"} {
+					if strings.HasPrefix(name, p) {
+						okPrefix = true
+					}
+				}
+				if !okPrefix {
+					return "calls " + name
+				}
+			}
+		}
+	}
+	return ""
 }
